@@ -40,7 +40,9 @@ def srcFilter (env : Env) (sr : Py.Obj) : MsgInfo Msg → Except Err Bool := fun
 /-- the model's configuration for the arguments of `generate_bufr_message` (`if filter_expr:` is the truth value of a
     `str` or `None`: `None` and `''` mean "no filter") -/
 def srcCfg (env : Env) (io coe : Bool) (fe : Option (List Char)) (sr : Py.Obj) : Cfg Msg :=
-  { infoOnly := io, continueOnError := coe, filter := if Py.truthyOptSeq fe then some (srcFilter env sr) else none }
+  { infoOnly := io, continueOnError := coe, filter := if Py.truthyOptSeq fe then some (srcFilter env sr) else none,
+    tableDef := fun mi => decide (mi.msg.data_category_value = DATA_CATEGORY_DEFINE_BUFR_TABLES) &&
+      decide (mi.msg.n_subsets_value > 0) }
 
 /-- the message object the generator yields for an item of the model: in info-only mode its `serialized_bytes` were
     replaced by the slice of the stream -/
@@ -280,8 +282,23 @@ theorem body_step (env : Env) (hcb : CbOk env) (s : Bytes) (io coe : Bool) (fe :
           cases b with
           | false =>
             by_cases hc : mi.data_category_value = DATA_CATEGORY_DEFINE_BUFR_TABLES ∧ 0 < mi.n_subsets_value
-            · bsimp [hft, hr1, hb, hfind, hnn, hrest, htd, hinvl, hadd, hc]
-              close_adv (p + mi.serialized_bytes.length)
+            · -- a rejected table definition message: decoded in full, its definitions are processed, nothing is yielded
+              cases hr2 : env.decoder_process (vs.drop p) false with
+              | ok m =>
+                by_cases hc2 : m.data_category_value = DATA_CATEGORY_DEFINE_BUFR_TABLES ∧ 0 < m.n_subsets_value
+                · bsimp [hft, hr1, hr2, hb, hfind, hnn, hrest, htd, hinvl, hadd, hc, hc2]
+                  close_adv (p + m.serialized_bytes.length)
+                · bsimp [hft, hr1, hr2, hb, hfind, hnn, hrest, htd, hinvl, hadd, hc, hc2]
+                  close_adv (p + m.serialized_bytes.length)
+              | error e =>
+                cases hl : env.isinstance_PyBufrKitError e with
+                | false =>
+                  bsimp [hft, hr1, hr2, hb, hfind, hnn, hrest, hl, hc]
+                  exact ⟨_, _, ⟨rfl, rfl⟩, hl, rfl⟩
+                | true =>
+                  cases vcoe <;> bsimp [hft, hr1, hr2, hb, hfind, hnn, hrest, hl, hc]
+                  · exact ⟨_, _, ⟨rfl, rfl⟩, hl, rfl⟩
+                  · close_adv (p + mi.length_value.toNat)
             · bsimp [hft, hr1, hb, hfind, hnn, hrest, htd, hinvl, hadd, hc]
               close_adv (p + mi.serialized_bytes.length)
           | true =>
